@@ -31,6 +31,16 @@ def run(ctx):
     l4(ctx, F, U)
     l5(ctx, F)
     l6(ctx, F)
+    # the per-ply *state stack* as well: the longest game the front ends accept plus the deepest line the search can be on fits its
+    # capacity (the length accounting of C15.CAP; an overrun is silent memory corruption in release builds)
+    from . import p15
+    try:
+        _rule, ok_cap, found_cap = p15.stack_capacity(ctx, F.fn("chess::Game::push"), None, F)
+    except Exception as e:      # the accounting could not be made (shape changed)
+        ok_cap, found_cap = False, str(e)
+    ctx.check("C08.L7", "state-stack-holds-game-plus-search-depth", ok_cap, fn="chess::Game::push", file="src/chess/mod.rs",
+              what="the longest accepted game plus the maximum search depth (plus the capture extension) no longer fits the per-ply state "
+                   "stack: a long unlimited search on a long game overruns it", found=found_cap)
 
 
 def const_of(t, F):
